@@ -79,6 +79,31 @@ def check_batch(y, valid, nd, srange, robust, p_env, p, family="words"):
                     f"{variant}(robust={robust}): reported lambda {float(lopt[j])!r} is not a value of 10**srange "
                     f"{np.asarray(srange).tolist()} for y={y[j].tolist()}")
     yv = np.where(valid, y, np.nan)
+    # Optimality conditions of a weighted Whittaker curve at the reported lambda, whatever the weights w in [0,1]
+    # (validity x robust x asymmetric) are:  lambda (D'D z)_i = w_i (y_i - z_i).  Hence at valid cells the fourth
+    # difference has the sign of the residual and lambda |D'D z|_i <= |y_i - z_i|; at missing cells it vanishes.
+    # The int16 band is within 0.5 of z, which gives the slack terms.
+    from ..oracle import pls as _pls
+    P = _pls.dtd(n).astype(np.float64)
+    slack = 0.5 * np.abs(P).sum(axis=1) + 1e-6
+    c4 = out.astype(np.float64) @ P.T
+    res = np.where(valid, y - out, 0.0)
+    lam_col = lopt[:, None]
+    big_pos = c4 > slack[None, :]
+    big_neg = c4 < -slack[None, :]
+    enough5 = (valid.sum(axis=1) >= 5)[:, None] & (lopt > 0)[:, None]
+    kkt_bad = enough5 & (
+        (~valid & (big_pos | big_neg))
+        | (valid & big_pos & (res < -0.5 - 1e-6))
+        | (valid & big_neg & (res > 0.5 + 1e-6))
+        | (valid & (lam_col * (np.abs(c4) - slack[None, :]) > (np.abs(res) + 0.5) * (1 + 1e-9) + 1e-6))
+    )
+    p.count("optimality_conditions", evaluations=N, nontrivial=int(enough5.any(axis=1).sum()))
+    for j in np.nonzero(kkt_bad.any(axis=1))[0][:3]:
+        i = int(np.nonzero(kkt_bad[j])[0][0])
+        p.violation("optimality_conditions", key(j), case(j),
+                    f"{variant}(robust={robust}): band {out[j].tolist()} at lambda {float(lopt[j])!r} cannot be a Whittaker curve of y={y[j].tolist()} with weights in [0,1] "
+                    f"on the valid cells: at position {i} the fourth difference is {c4[j, i]:.2f} and the residual {res[j, i]:.1f}")
     if not robust:
         fixed = "ws2dgu" if p_env is None else "ws2dpgu"
         exp, _ = wc.call_variant(fixed, y, nd, lam=lopt, p=p_env)
